@@ -135,9 +135,24 @@ fn from_js_str_radix(src: JsStr<'_>, radix: u8) -> Option<f64> {
         let digits = src
             .map(|c| to_digit(c, radix))
             .collect::<Option<Vec<_>>>()?;
-        BigUint::from_radix_be(&digits, u32::from(radix))?
-            .to_f64()
-            .unwrap_or(f64::INFINITY)
+        let n = BigUint::from_radix_be(&digits, u32::from(radix))?;
+        let bits = n.bits();
+        if bits <= 64 {
+            n.to_u64()? as f64
+        } else {
+            // Round the exact integer once: keep the 64 most significant bits, fold every lower
+            // bit into a sticky bit (it lies below the rounding position of an `f64`), convert
+            // (round to nearest, ties to even) and scale by the dropped power of two.
+            let shift = bits - 64;
+            let mut top = (&n >> shift).to_u64()?;
+            if n.trailing_zeros().is_some_and(|zeros| zeros < shift) {
+                top |= 1;
+            }
+            match i32::try_from(shift) {
+                Ok(shift) if shift <= 1024 => (top as f64) * 2f64.powi(shift),
+                _ => f64::INFINITY,
+            }
+        }
     };
 
     Some(result)
